@@ -615,10 +615,13 @@ func (s *Stmt) Render() string {
 }
 
 // SpellName writes a field name as the query must spell it: a name that is
-// not a plain word (it contains a blank, a dash or a dot) needs backquotes.
+// not a plain word (letters, digits, underscores) needs backquotes.
 func SpellName(name string) string {
-	if strings.ContainsAny(name, " -.") {
-		return "`" + name + "`"
+	for i := 0; i < len(name); i++ {
+		c := name[i]
+		if !(c == '_' || (c >= 'a' && c <= 'z') || (c >= 'A' && c <= 'Z') || (i > 0 && c >= '0' && c <= '9')) {
+			return "`" + name + "`"
+		}
 	}
 	return name
 }
